@@ -11,6 +11,12 @@ def with_dup(b: Bytes, flag: bool) -> Bytes:
     return (seq(b[0] + 8) + b[1:]) if (flag and (b[0] // 8) % 2 == 0) else b
 
 
+@spec(opaque=True)
+def dup_set(now: Bytes, before: Bytes) -> bool:
+    """now is before with the DUP flag set (opaque: quantified statements carry it as an atom)"""
+    return now == with_dup(before, True)
+
+
 @spec
 def timer_for(self: Ref['mqtt.client.pubsubs.MQTTProtocol'], r: Ref['obj'], f: int) -> bool:
     """r.alarm is a timer created by this call: ACTIVE, calling f(r) on self"""
@@ -35,6 +41,8 @@ def _(self: Ref['mqtt.client.pubsubs.MQTTProtocol'], request: Ref['mqtt.pdu.SUBS
     ensures(timer_for(self, request, fn('mqtt.client.pubsubs.MQTTProtocol._subscribeError')))
     ensures(num(request.alarm.t_delay) >= request.interval.initial)
     ensures(wf_interval(request.interval))
+    # I.enc is kept: only the DUP flag of the stored bytes may change (same_packet is opaque elsewhere)
+    ensures(implies(old(is_bytes(request.g_base) and (enc_ok(request) or request.encoded == request.g_base)), enc_ok(request)))
 
 
 @contract('mqtt.client.pubsubs.MQTTProtocol._retryUnsubscribe', props=['C08', 'C07', 'C02', 'C18', 'C13'])
@@ -48,6 +56,8 @@ def _(self: Ref['mqtt.client.pubsubs.MQTTProtocol'], request: Ref['mqtt.pdu.UNSU
     ensures(timer_for(self, request, fn('mqtt.client.pubsubs.MQTTProtocol._unsubscribeError')))
     ensures(num(request.alarm.t_delay) >= request.interval.initial)
     ensures(wf_interval(request.interval))
+    # I.enc is kept: only the DUP flag of the stored bytes may change (same_packet is opaque elsewhere)
+    ensures(implies(old(is_bytes(request.g_base) and (enc_ok(request) or request.encoded == request.g_base)), enc_ok(request)))
 
 
 # ---------------------------------------------------------------- PUBLISH / PUBREL
@@ -60,12 +70,16 @@ def _(self: Ref['mqtt.client.pubsubs.MQTTProtocol'], request: Ref['mqtt.pdu.PUBL
     modifies(request.encoded, request.dup, request.alarm, request.interval._value, request.interval._k,
              self.transport.tr_out, allocates())
     ensures(request.encoded == with_dup(old(as_bytes(request.encoded)), dup))
+    ensures(implies(dup, dup_set(as_bytes(request.encoded), old(as_bytes(request.encoded)))))
+    ensures(implies(not dup, as_bytes(request.encoded) == old(as_bytes(request.encoded))))
     ensures(is_bool(request.dup) and request.dup == dup)
     ensures(is_list_bytes(self.transport.tr_out) and out(self) == old(out(self)) + lb(request.encoded))
     ensures(implies(not is_none(request.interval),
                     timer_for(self, request, fn('mqtt.client.pubsubs.MQTTProtocol._publishError'))
                     and num(request.alarm.t_delay) >= request.interval.initial and wf_linear(request.interval)))
     ensures(implies(is_none(request.interval), unchanged(request.alarm)))
+    # I.enc is kept: only the DUP flag of the stored bytes may change (same_packet is opaque elsewhere)
+    ensures(implies(old(is_bytes(request.g_base) and (enc_ok(request) or request.encoded == request.g_base)), enc_ok(request)))
 
 
 @contract('mqtt.client.pubsubs.MQTTProtocol._retryRelease', props=['C08', 'C09', 'C02', 'C18', 'C13', 'C12'])
@@ -81,3 +95,6 @@ def _(self: Ref['mqtt.client.pubsubs.MQTTProtocol'], reply: Ref['mqtt.pdu.PUBREL
     ensures(timer_for(self, reply, fn('mqtt.client.pubsubs.MQTTProtocol._pubrelError')))
     ensures(num(reply.alarm.t_delay) >= reply.interval.initial)
     ensures(wf_interval(reply.interval))
+
+    # I.enc is kept: only the DUP flag of the stored bytes may change (same_packet is opaque elsewhere)
+    ensures(implies(old(is_bytes(reply.g_base) and (enc_ok(reply) or reply.encoded == reply.g_base)), enc_ok(reply)))
